@@ -577,3 +577,113 @@ theorem CInv.qsec_step : ∀ (qs : List SQuery) (buf : Bytes) (ss : List Site) (
         · rw [wireQs_cons, List.length_append, List.length_append]; omega
 
 end Tins.Dns
+
+namespace Tins.Dns
+open Out
+
+/-! ### the whole message -/
+
+/-- no name has more than 31 labels (so that the compressed encoding needs at most 31 jumps) -/
+structure Sections.Short (S : Sections) : Prop where
+  qs : ∀ q ∈ S.qs, q.name.length ≤ 31
+  an : ∀ r ∈ S.an, r.short = true
+  au : ∀ r ∈ S.au, r.short = true
+  ad : ∀ r ∈ S.ad, r.short = true
+
+/-- **the compressed reference encoding of legal content is accepted, well-formed, and read back as the content** -/
+theorem refCompress_wf {hdr : Bytes} (hh : hdr.length = 4) {S : Sections} (hl : S.Legal) (hs : S.Small) (hsh : S.Short) :
+    ∃ m0 L0, parse (refCompress hdr S) = ok m0 ∧ WFL m0 L0 ∧
+      (views m0 L0).qs = S.qs.map SQuery.view ∧ (views m0 L0).an = S.an.map SRec.view ∧
+      (views m0 L0).au = S.au.map SRec.view ∧ (views m0 L0).ad = S.ad.map SRec.view ∧
+      (m0.q = S.qs.length ∧ m0.an = S.an.length ∧ m0.au = S.au.length ∧ m0.ad = S.ad.length) ∧
+      m0.recs.length ≤ (wireSections S).length := by
+  obtain ⟨s1, s2, s3, s4⟩ := hs
+  -- questions
+  obtain ⟨σs, q1, q2, q3, q4, q5⟩ := CInv.qsec_step S.qs [] [] [] CInv.empty
+    (fun q hq => ⟨(hl.qs q hq).1, (hl.qs q hq).2, hsh.qs q hq⟩)
+  simp only [List.length_nil, List.nil_append, Nat.zero_add] at q1 q2 q4 q5
+  cases hq : compressList compressQuery [] 0 S.qs with
+  | mk bq t1 =>
+  rw [hq] at q1 q2 q4 q5
+  dsimp only at q1 q2 q4 q5
+  -- answers
+  obtain ⟨lan, a1, a2, a3, a4, a5⟩ := CInv.sec_step S.an bq σs t1 q2 (fun r hr => ⟨hl.an r hr, hsh.an r hr⟩)
+  cases han : compressList compressRec t1 bq.length S.an with
+  | mk ban t2 =>
+  rw [han] at a1 a2 a4 a5
+  dsimp only at a1 a2 a4 a5
+  -- authority
+  obtain ⟨lau, u1, u2, u3, u4, u5⟩ := CInv.sec_step S.au (bq ++ ban) _ t2 a2 (fun r hr => ⟨hl.au r hr, hsh.au r hr⟩)
+  have hl2 : (bq ++ ban).length = bq.length + ban.length := by simp only [List.length_append]
+  rw [hl2] at u1 u2 u4 u5
+  cases hau : compressList compressRec t2 (bq.length + ban.length) S.au with
+  | mk bau t3 =>
+  rw [hau] at u1 u2 u4 u5
+  dsimp only at u1 u2 u4 u5
+  -- additional
+  obtain ⟨lad, d1, d2, d3, d4, d5⟩ := CInv.sec_step S.ad (bq ++ ban ++ bau) _ t3 u2 (fun r hr => ⟨hl.ad r hr, hsh.ad r hr⟩)
+  have hl3 : (bq ++ ban ++ bau).length = bq.length + ban.length + bau.length := by simp only [List.length_append]
+  rw [hl3] at d1 d2 d4 d5
+  cases had : compressList compressRec t3 (bq.length + ban.length + bau.length) S.ad with
+  | mk bad t4 =>
+  rw [had] at d1 d2 d4 d5
+  dsimp only at d1 d2 d4 d5
+  -- the object the constructor builds
+  have hR : (bq ++ ban ++ bau ++ bad).length = bq.length + ban.length + bau.length + bad.length := by
+    simp only [List.length_append]
+  let m0 : Msg := Msg.mk hdr S.qs.length S.an.length S.au.length S.ad.length (bq ++ ban ++ bau ++ bad) bq.length
+    (bq.length + ban.length) (bq.length + ban.length + bau.length)
+  let L0 : Layout := ⟨σs, lan, lau, lad⟩
+  have hser : refCompress hdr S = serialize m0 := by
+    unfold refCompress serialize
+    rw [hq]; dsimp only
+    rw [han]; dsimp only
+    rw [hau]; dsimp only
+    rw [had]
+    simp only [m0, List.append_assoc]
+  have hlay : MsgAt m0 L0 := by
+    refine ⟨?_, ?_, ?_, ?_, q3.symm, a3.symm, u3.symm, d3.symm⟩
+    · have := ((q1.append ban).append bau).append bad
+      exact this
+    · exact (a1.append bau).append bad
+    · exact u1.append bad
+    · show SecAt (bq ++ ban ++ bau ++ bad) (bq.length + ban.length + bau.length) lad (bq ++ ban ++ bau ++ bad).length
+      rw [hR]; exact d1
+  have hsites : L0.sites = σs ++ recSites lan ++ recSites lau ++ recSites lad := by
+    simp only [L0, Layout.sites, List.append_assoc]
+  have hwf : WFL m0 L0 := by
+    refine ⟨hlay, ?_, ?_, hh⟩
+    · intro σ hσ he
+      rw [hsites] at hσ ⊢
+      obtain ⟨b1, b2, τ, hτ, b3, b4⟩ := d2.back σ hσ he
+      have bσ := (d2.sites σ hσ).1.site.bounds
+      have key : ∀ b, σ.x < b → ptrAt (bq ++ ban ++ bau ++ bad) σ.x - 12 < b := fun b hb => by omega
+      exact ⟨b1, ⟨τ, hτ, b3, b4⟩, key _, key _, key _⟩
+    · intro σ hσ
+      rw [hsites] at hσ
+      obtain ⟨nm, _, h2⟩ := (d2.sites σ hσ).1.compose []
+      show (composeName (bq ++ ban ++ bau ++ bad) composeFuel σ.s [] 0 none).isOk = true
+      rw [h2]; rfl
+  refine ⟨m0, L0, ?_, hwf, ?_, ?_, ?_, ?_, ⟨rfl, rfl, rfl, rfl⟩, ?_⟩
+  · rw [hser]
+    exact parse_of_layout hlay hh s1 s2 s3 s4
+  · show σs.map (viewQ (bq ++ ban ++ bau ++ bad)) = _
+    have := q4 (ban ++ bau ++ bad)
+    simp only [List.append_assoc] at this ⊢
+    exact this
+  · show lan.map (viewRec (bq ++ ban ++ bau ++ bad)) = _
+    have := a4 (bau ++ bad)
+    simp only [List.append_assoc] at this ⊢
+    exact this
+  · show lau.map (viewRec (bq ++ ban ++ bau ++ bad)) = _
+    exact u4 bad
+  · show lad.map (viewRec (bq ++ ban ++ bau ++ bad)) = _
+    have := d4 []
+    rw [List.append_nil] at this
+    exact this
+  · show (bq ++ ban ++ bau ++ bad).length ≤ (wireSections S).length
+    rw [hR]
+    simp only [wireSections, List.length_append]
+    omega
+
+end Tins.Dns
